@@ -14,7 +14,24 @@ SCRATCH_PARENT = os.environ.get("VERIF_SCRATCH", "/tmp")
 
 
 def load_config():
-    return json.load(open(os.path.join(KANI_DIR, "config.json")))
+    """kani/config.json merged with every kani/harnesses.d/*.json (same schema; lets harness families live in separate files)"""
+    cfg = json.load(open(os.path.join(KANI_DIR, "config.json")))
+    d = os.path.join(KANI_DIR, "harnesses.d")
+    if os.path.isdir(d):
+        for f in sorted(os.listdir(d)):
+            if f.endswith(".json"):
+                x = json.load(open(os.path.join(d, f)))
+                have = set(m["name"] for m in cfg["modules"])
+                cfg["modules"] += [m for m in x.get("modules", []) if m["name"] not in have]
+                cfg["contracts"] += x.get("contracts", [])
+                cfg["harnesses"].update(x.get("harnesses", {}))
+    only = os.environ.get("VERIF_KANI_MODULES")
+    if only:
+        keep = set(only.split(",")) | {"verif_kani_spec"}
+        cfg["modules"] = [m for m in cfg["modules"] if m["name"] in keep]
+        files = set(m["parent"] for m in cfg["modules"])
+        cfg["contracts"] = [c for c in cfg["contracts"] if c["file"] in files]
+    return cfg
 
 
 def _mod_file(parent, name):
@@ -22,6 +39,36 @@ def _mod_file(parent, name):
     if f in ("lib.rs", "mod.rs"):
         return os.path.join(d, name + ".rs")
     return os.path.join(d, f[:-3], name + ".rs")
+
+
+_src_hash = {}
+
+
+def harness_fingerprint(h, cfg):
+    """hash of everything a harness result depends on: /repo sources, the shared spec module, the module file that
+    defines the harness, the injected contracts and the harness' config entry (edits to other harness files do not matter)"""
+    if "src" not in _src_hash:
+        hh = hashlib.sha256()
+        for base, dirs, files in os.walk(os.path.join(REPO, "src")):
+            dirs.sort()
+            for f in sorted(files):
+                p = os.path.join(base, f)
+                hh.update(os.path.relpath(p, REPO).encode()); hh.update(open(p, "rb").read())
+        for f in ("Cargo.toml", "Cargo.lock"):
+            p = os.path.join(REPO, f)
+            if os.path.exists(p):
+                hh.update(open(p, "rb").read())
+        _src_hash["src"] = hh.hexdigest()
+    hh = hashlib.sha256(_src_hash["src"].encode())
+    hh.update(open(os.path.join(KANI_DIR, "mods", "spec.rs"), "rb").read())
+    for m in cfg["modules"]:
+        p = os.path.join(KANI_DIR, m["source"])
+        txt = open(p).read()
+        if re.search(r"\bfn\s+%s\s*\(" % re.escape(h), txt):
+            hh.update(txt.encode()); hh.update(m["parent"].encode())
+    hh.update(json.dumps(cfg.get("contracts", []), sort_keys=True).encode())
+    hh.update(json.dumps(cfg["harnesses"].get(h, {}), sort_keys=True).encode())
+    return hh.hexdigest()
 
 
 def repo_fingerprint():
@@ -145,10 +192,10 @@ def run_harnesses(names, cfg=None, use_cache=True, playback=False, timeout=3000,
     returns dict(status, harnesses={name: result}, messages, wall_s, cmd, injection)"""
     cfg = cfg or load_config()
     os.makedirs(CACHE, exist_ok=True)
-    fp = repo_fingerprint()
     out = {"harnesses": {}, "status": None, "messages": [], "wall_s": 0, "cmd": "", "injection": None}
     todo = []
     for h in names:
+        fp = harness_fingerprint(h, cfg)
         cpath = os.path.join(CACHE, hashlib.sha256((fp + "|" + h + "|pb=%s" % playback).encode()).hexdigest() + ".json")
         if use_cache and os.path.exists(cpath):
             r = json.load(open(cpath)); r["cached"] = True
@@ -157,6 +204,16 @@ def run_harnesses(names, cfg=None, use_cache=True, playback=False, timeout=3000,
             todo.append((h, cpath))
     t0 = time.time()
     if todo:
+        # inject only the modules that define the requested harnesses (+ the shared spec module): a harness module
+        # that no longer compiles against a changed /repo then cannot take unrelated harnesses down with it
+        need = {"verif_kani_spec"}
+        for m in cfg["modules"]:
+            txt = open(os.path.join(KANI_DIR, m["source"])).read()
+            if any(re.search(r"\bfn\s+%s\s*\(" % re.escape(h), txt) for h, _ in todo):
+                need.add(m["name"])
+        cfg = dict(cfg, modules=[m for m in cfg["modules"] if m["name"] in need])
+        parents = set(m["parent"] for m in cfg["modules"])
+        cfg["contracts"] = [c for c in cfg.get("contracts", []) if c["file"] in parents]
         d, report = make_scratch(cfg)
         out["injection"] = report
         try:
